@@ -475,12 +475,21 @@ def check_probe_under_queue_lock(run, ctx, rule='C18-M5'):
     same key both see "absent", both push the key, and the queue holds it twice."""
     from .effects import classify
     n = 0
-    for body in ctx.core.bodies.values():
-        root = body
-        while root.kind == 'closure' and ctx.prog.bodies.get(root.parent) is not None:
-            root = ctx.prog.bodies[root.parent]
-        if not root.name.startswith(N.ASYNC + '::') or root.name.rsplit('::', 1)[-1] not in ('insert', 'insert_with_memory', 'is_already_key_inserted'):
+    # the store path: the two public store functions of the async cache and everything in the library they reach (helpers are
+    # found through the call graph, not by name)
+    scope = []
+    seen = set()
+    todo = [b for b in ctx.core.bodies.values() if b.name in (N.ASYNC + '::insert', N.ASYNC + '::insert_with_memory')]
+    while todo:
+        x = todo.pop()
+        if x.id in seen:
             continue
+        seen.add(x.id)
+        scope.append(x)
+        for (blk, cb, how) in ctx.prog.call_edges(x):
+            if cb.crate is ctx.core and how in ('direct', 'closure') and cb.id not in seen:
+                todo.append(cb)
+    for body in scope:
         probes = [(bi, t) for bi, t in body.calls() if classify(t) == 'S?']
         if not probes:
             continue
